@@ -274,6 +274,57 @@ def small_symmetric(ck, rng):
     return out
 
 
+def multigraphs(ck, rng, symmetric=False):
+    """Multigraphs: paths, rings, trees, grids and random graphs whose edges are repeated - the whole edge
+    list concatenated with itself (2x / 3x, order kept), or every edge doubled with the SAME or a DIFFERENT
+    weight, or a random subset repeated; long diameters so that wasted work shows; shuffled and unshuffled."""
+    out = []
+    for i in range(ck.n(160, 1600)):
+        V = int(rng.integers(3, 15))
+        shape = int(rng.integers(5))
+        if shape == 0:
+            base = [(u, u + 1) for u in range(V - 1)]
+        elif shape == 1:
+            base = [(u, (u + 1) % V) for u in range(V)]
+        elif shape == 2:
+            base = [(int(rng.integers(v)), v) for v in range(1, V)]
+        elif shape == 3:
+            b = int(rng.integers(2, 4))
+            a = max(2, V // b)
+            V = a * b
+            base = [(i_ * b + j, (i_ + 1) * b + j) for i_ in range(a - 1) for j in range(b)] + [(i_ * b + j, i_ * b + j + 1) for i_ in range(a) for j in range(b - 1)]
+        else:
+            base = [(int(rng.integers(V)), int(rng.integers(V))) for _ in range(int(rng.integers(V, 2 * V)))]
+        wmode = int(rng.integers(3))
+        und = [(u, v, 1 if wmode == 0 else int(rng.integers(0, 4))) for u, v in base]
+        if symmetric or rng.random() < 0.4:
+            edges = [e for (u, v, w) in und for e in (((u, v, w), (v, u, w)) if u != v else ((u, v, w),))]
+        else:
+            edges = list(und)
+        mode = int(rng.integers(5))
+        if mode == 0:
+            edges = edges + edges
+            kind = "concatenated-2x"
+        elif mode == 1:
+            edges = edges + edges + edges
+            kind = "concatenated-3x"
+        elif mode == 2:
+            edges = [e for e in edges for _ in range(2)]
+            kind = "every-edge-doubled-equal-weight"
+        elif mode == 3:
+            edges = [x for (u, v, w) in edges for x in ((u, v, w), (u, v, w + int(rng.integers(1, 3))))]
+            kind = "every-edge-doubled-unequal-weight"
+        else:
+            edges = edges + [edges[int(j)] for j in rng.integers(0, len(edges), size=len(edges) // 2 + 1)]
+            kind = "random-repeats"
+        if rng.random() < 0.5:
+            edges = [edges[j] for j in rng.permutation(len(edges))]
+            kind += "-shuffled"
+        out.append((V, edges, ("sym-" if symmetric else "digraph-") + "multigraph-" + kind))
+    return out
+
+
+
 def random_symmetric(rng, V):
     ncomp = int(rng.integers(1, 6))
     comp = rng.integers(0, ncomp, size=V)
@@ -310,6 +361,7 @@ def sec_sp(ck, G, T):
         if edges:
             edges = [edges[j] for j in rng.permutation(len(edges))]
             cases.append((V, edges, "digraph-dense-stale-heap"))
+    cases += multigraphs(ck, rng)
     cases.sort(key=lambda c: (c[0] > 4, ))     # stable: small graphs first
     nmodel = 0
     for V, edges, bucket in cases:
@@ -324,6 +376,12 @@ def sec_sp(ck, G, T):
         else:
             seedsets = [[int(rng.integers(V))] for _ in range(3)]
             seedsets.append([int(x) for x in rng.choice(V, size=4, replace=False)])
+        # duplicated seeds: the same vertex listed twice, alone and among others
+        s0 = int(rng.integers(V))
+        seedsets.append([s0, s0])
+        if V >= 2:
+            t0 = int(rng.integers(V))
+            seedsets.append([s0, t0, s0, t0][:int(rng.integers(3, 5))])
         ck.count(("sp", V, tuple(edges)), nontrivial=len(edges) > 0, bucket=bucket)
         if not edges:
             # edgeless graph: distances are 0 at the seeds and inf elsewhere
@@ -417,6 +475,7 @@ def sec_sym(ck, G, T):
     for i in range(ck.n(20, 120)):
         V = int(rng.integers(6, 15)) if i % 3 else int(rng.integers(30, ck.n(81, 161)))
         cases.append((V, random_symmetric(rng, V), "sym-random-%s" % ("small" if V < 15 else "large")))
+    cases += multigraphs(ck, rng, symmetric=True)[:ck.n(100, 1000)]
     nv = 0
     for V, edges, bucket in cases:
         ck.count(("sym", V, tuple(edges)), nontrivial=len(edges) > 0, bucket=bucket)
@@ -490,6 +549,8 @@ def sec_sym(ck, G, T):
             for _ in range(2):
                 r = int(rng.integers(1, min(V, 6) + 1))
                 seedsets.append([int(x) for x in rng.choice(V, size=r, replace=False)])
+        s0 = int(rng.integers(V))
+        seedsets.append([s0, int(rng.integers(V)), s0])      # a duplicated seed
         labs, verdicts, dmins = [], [], []
         for seeds in seedsets:
             try:
@@ -771,7 +832,24 @@ def sec_builders(ck, G, B, T):
         bg = B.BipartiteGraph(n1, n2, ed, w)
         A = dense(n1, n2, ed, w)
         for side, n in (("left", n1), ("right", n2)):
-            valid = rng.random(n) < 0.6
+            valid0 = vertex_selection(rng, n)
+            nonbool = valid0.dtype != bool
+            valid = valid0 > 0
+            if nonbool:
+                # a non-boolean selection (0/1 integers, labels, floats): same sub-matrix as the mask valid > 0
+                try:
+                    sgn = (bg.subgraph_left if side == "left" else bg.subgraph_right)(valid0)
+                    if valid.any():
+                        wantn = A[valid, :] if side == "left" else A[:, valid]
+                        gotn = dense(sgn.V, sgn.W, sgn.edges, sgn.weights) if sgn is not None and sgn.E else (np.zeros((sgn.V, sgn.W)) if sgn is not None else None)
+                        if gotn is None or gotn.shape != wantn.shape or not np.array_equal(gotn, wantn):
+                            ck.fail("bipartite/subgraph_%s-nonboolean-mask" % side,
+                                    "subgraph_%s(valid=%s) on V=%d W=%d edges=%s: result is not the sub-matrix of the entries valid > 0 (the mask is used as an integer index)" % (
+                                        side, valid0.tolist(), n1, n2, ed.tolist()),
+                                    {"V": n1, "W": n2, "edges": ed.tolist(), "weights": w.tolist(), "valid": valid0.tolist()})
+                except Exception as e:  # noqa
+                    ck.fail("bipartite/subgraph_%s-nonboolean-mask" % side, "subgraph_%s(valid=%s) raised %s: %s" % (side, valid0.tolist(), type(e).__name__, e),
+                            {"V": n1, "W": n2, "edges": ed.tolist(), "valid": valid0.tolist()})
             nb += 1
             ck.count(("bsub", side, ed.tobytes(), valid.tobytes()), bucket="bipartite-subgraph")
             try:
@@ -824,6 +902,27 @@ def kruskal_multiset(V, edges):
 
 
 # ------------------------------------------------------------------ section: structural operations
+def vertex_selection(rng, n):
+    """A selection array in one of the forms callers use: boolean mask, 0/1 integers, positive integers > 1,
+    +1/-1 indicator, label array with -1 = unlabelled, floats (0/1, fractions, negative values)."""
+    keep = rng.random(n) < 0.6
+    kind = int(rng.integers(7))
+    if kind == 0:
+        return keep
+    if kind == 1:
+        return keep.astype(int)
+    if kind == 2:
+        return keep.astype(int) * rng.integers(1, 5, size=n)
+    if kind == 3:
+        return np.where(keep, 1, -1)
+    if kind == 4:
+        return np.where(keep, rng.integers(1, 4, size=n), rng.integers(-1, 1, size=n))
+    if kind == 5:
+        return keep.astype(float)
+    return np.where(keep, rng.choice([0.5, 1.0, 2.5], size=n), rng.choice([0.0, -0.5, -1.0], size=n))
+
+
+
 def sec_structural(ck, G, T):
     WeightedGraph = G.WeightedGraph
     rng = ck.rng("structural")
@@ -905,11 +1004,28 @@ def sec_structural(ck, G, T):
                 ck.fail("remove_trivial_edges/wrong", "remove_trivial_edges: got %s expected %s" % (got, want), rp)
         except Exception as e:  # noqa
             ck.fail("remove_trivial_edges/raises", "%s: %s" % (type(e).__name__, e), rp)
+        # remove_edges: "Removes all the edges for which valid==0"
+        ev = vertex_selection(rng, len(edges))
+        if (ev != 0).any():
+            try:
+                g = fresh()
+                g.remove_edges(ev)
+                want = [(u, v, float(w)) for (u, v, w), k_ in zip(edges, (ev != 0).tolist()) if k_]
+                got = [(int(a), int(b), float(x)) for (a, b), x in zip(np.asarray(g.edges).reshape(-1, 2).tolist(), np.asarray(g.weights, float).ravel().tolist())]
+                if got != want:
+                    ck.fail("remove_edges/wrong-edges", "remove_edges(%s): kept %s, expected %s" % (ev.tolist(), got, want), dict(rp, valid=ev.tolist()))
+                elif int(g.E) != len(want):
+                    boolean = ev.dtype == bool or set(np.unique(ev).tolist()) <= {0, 1}
+                    ck.fail("remove_edges/E-is-not-the-number-of-kept-edges" + ("" if boolean else "-nonboolean-valid"),
+                            "remove_edges(valid=%s) on %d edges keeps %d edges but sets E = %d (E = valid.sum())" % (ev.tolist(), len(edges), len(want), int(g.E)),
+                            dict(rp, valid=ev.tolist()))
+            except Exception as e:  # noqa
+                ck.fail("remove_edges/raises", "%s: %s" % (type(e).__name__, e), dict(rp, valid=ev.tolist()))
         # subgraph
-        valid = (rng.random(V) < 0.6).astype(int) * int(rng.integers(1, 3))
+        valid = vertex_selection(rng, V)
         try:
             sg = fresh().subgraph(valid)
-            keep = valid > 0
+            keep = valid > 0      # "Creates a subgraph with the vertices for which valid>0", p = sum(valid>0)
             if not keep.any():
                 if sg is not None:
                     ck.fail("subgraph/empty-mask", "subgraph(all zero) must be None", rp)
